@@ -948,8 +948,16 @@ def rule_ed(repo, rep, r6):
         for call in [x for x in walk_local_stmt(rd.node) if isinstance(x, ast.Call) and ast.unparse(x.func).endswith(".ed") and x.args]:
             a0 = call.args[0]
             if isinstance(a0, ast.Name):
-                defs = [x.value for x in walk_local_stmt(rd.node) if isinstance(x, ast.Assign) and any(
-                    isinstance(t, ast.Name) and t.id == a0.id for t in x.targets)]
+                def defs_of(nm, depth=0):
+                    out = []
+                    for x in walk_local_stmt(rd.node):
+                        if isinstance(x, ast.Assign) and any(isinstance(t, ast.Name) and t.id == nm for t in x.targets):
+                            if isinstance(x.value, ast.Name) and depth < 4:
+                                out += defs_of(x.value.id, depth + 1)       # a plain alias of another local
+                            else:
+                                out.append(x.value)
+                    return out
+                defs = defs_of(a0.id)
                 if any(not (isinstance(d, ast.Call) and isinstance(d.func, ast.Name) and d.func.id in ("float", "floatOrNan")) for d in defs):
                     raw_entries = True
             elif not (isinstance(a0, ast.Call) and isinstance(a0.func, ast.Name) and a0.func.id == "float"):
